@@ -135,12 +135,28 @@ func (e *Enc) call(v *ssa.Call, c *ssa.CallCommon) {
 		pre[k] = ver
 	}
 	label := e.siteLabel()
+	env.oldVer = pre // in a precondition old(e) is e
 
 	// at-call assertions of the enclosing function
 	if e.spec != nil {
 		for _, ac := range e.spec.AtCalls {
 			if ac.Pattern != ci.key && !strings.HasSuffix(ci.key, ac.Pattern) {
 				continue
+			}
+			if ac.FromArg != "" {
+				ok := false
+				for i, an := range ac.Args {
+					if an == ac.FromArg && i < len(ci.args) {
+						if cv, isCall := ci.args[i].(*ssa.Call); isCall {
+							if w.resolveCallee(cv.Common()).key == ac.FromCallee {
+								ok = true
+							}
+						}
+					}
+				}
+				if !ok {
+					continue
+				}
 			}
 			aenv := e.fv.siteEnv(e, e.curBlock, e.curIdx)
 			for i, an := range ac.Args {
@@ -279,6 +295,19 @@ func (e *Enc) call(v *ssa.Call, c *ssa.CallCommon) {
 	if ci.spec != nil {
 		env.oldVer = pre
 		bindResults(env, ci.sig, resTerms)
+		for _, sc := range ci.spec.Sets {
+			h, err := w.heapGhost(sc.Ghost)
+			if err != nil {
+				e.errorf("%v", err)
+				continue
+			}
+			t, _, err := env.elab(sc.E)
+			if err != nil {
+				e.errorf("sets of %s: %v", ci.key, err)
+				continue
+			}
+			e.assume(fmt.Sprintf("(= %s %s)", e.H(h), t))
+		}
 		reach := e.reach[e.curBlock]
 		for _, cl := range ci.spec.Ensures {
 			if !e.pass.Active(cl.Tags) {
@@ -326,6 +355,11 @@ func (e *Enc) calleeEffects(ci *calleeInfo, env *Env) (writes []string, hasMod b
 	}
 	var preds []*ModClause
 	if ci.spec != nil {
+		for _, sc := range ci.spec.Sets {
+			if h, err := w.heapGhost(sc.Ghost); err == nil {
+				set[h] = true
+			}
+		}
 		for _, m := range ci.spec.Modifies {
 			switch {
 			case m.Nothing:
